@@ -11,6 +11,14 @@ CLAIMED = {
          "TLA+ model checking + spec->code edge replay + trace validation"),
  "C08": ("model_checking", "6 C08", "TLC: all batches of MC_C08 x options x id patterns; every transition replayed with per-item committed snapshots; random batches validated by TraceEngine.tla (shape, echo, stop/continue/undo, fail-clean, told)",
          "TLA+ model checking + spec->code edge replay + trace validation"),
+ "C13": ("model_checking", "6 C13", "TLC: NoInternalError over the grid of MC_C13 (7 object types x lifecycle states x ~300-cell parameter menu x versions); one real execution per grid cell from the real object in that state; random well-typed requests in all versions; verdict = observed General Failure / internal-error log record, validated by TraceEngine.tla",
+         "TLA+ model checking of the grid + one real execution per TLC-enumerated cell + trace validation"),
+ "C14": ("model_checking", "6 C14", "TLC: MC_C14 stores x filter conjunctions x paging x requesters checked against the declarative LocateSet/order/page predicates; every Locate transition replayed; random stores of 10-20 objects with random filter conjunctions and paging validated by TraceEngine.tla",
+         "TLA+ model checking + spec->code edge replay + trace validation"),
+ "C15": ("model_checking", "6 C15", "TLC: MC_C15 sequences of Set/Modify/DeleteAttribute (1.x and 2.0 forms) x attribute names x indices x values x object types x owner/non-owner against C15_fixed/exact/fail; every transition replayed with full raw-table projections before/after; random interleavings validated by TraceEngine.tla",
+         "TLA+ model checking + spec->code edge replay + trace validation"),
+ "C16": ("model_checking", "6 C16", "TLC: MC_C16 matrix versions (6 supported + 4 unsupported) x operations x version-dependent attributes enumerated completely; one real request per cell; random histories over all versions; TraceEngine.tla clauses echo/refuse/op/avail/attrs/create/query/discover; every listed version and advertised operation is then used for real. Field-level version gating of the encodings is part of C01/C02 (not claimed here)",
+         "TLA+ model checking of the version matrix + one real request per cell + trace validation"),
  "C11": ("model_checking", "6 C11", "TLC: RunRequest reads only (store, request); clause C11_placeholder on MC_C08; every request of random multi-client multi-version histories is compared with a fresh engine on a copy of the database (differential) and validated by TraceEngine.tla",
          "TLA+ model checking + trace validation; used-vs-fresh engine differential"),
 }
@@ -22,10 +30,6 @@ NOT_YET = {
  "C09": "check not built yet in this round",
  "C10": "check not built yet in this round",
  "C12": "check not built yet in this round",
- "C13": "check not built yet in this round",
- "C14": "check not built yet in this round",
- "C15": "check not built yet in this round",
- "C16": "check not built yet in this round",
  "C17": "check not built yet in this round",
  "C18": "check not built yet in this round",
  "C19": "check not built yet in this round",
